@@ -200,6 +200,35 @@ for _c in STRAY:
     INVALID += ['a' + _c, _c + 'a', 'a' + _c + 'and b', _c + 'a == 1' + _c, 'a == "x"' + _c, 'not' + _c + 'a', 'a ' + _c, ' ' + _c + ' a']
 
 
+# setters of interpreter- or process-wide state: evaluating a filter has no business calling them, not even to put the old
+# value back afterwards (another thread sees the value in between); they are not audited by CPython, so they are wrapped
+SETTERS = [('sys', 'setrecursionlimit'), ('sys', 'setswitchinterval'), ('sys', 'settrace'), ('sys', 'setprofile'),
+           ('warnings', 'simplefilter'), ('warnings', 'filterwarnings'), ('warnings', 'resetwarnings'),
+           ('locale', 'setlocale'), ('signal', 'signal'), ('os', 'chdir'), ('os', 'umask'), ('threading', 'settrace'), ('threading', 'setprofile'),
+           ('gc', 'disable'), ('gc', 'enable'), ('gc', 'set_threshold'), ('time', 'tzset')]
+
+
+def _wrap_setters():
+    import importlib
+    saved = []
+    for modname, attr in SETTERS:
+        try:
+            mod = importlib.import_module(modname)
+            real = getattr(mod, attr)
+        except Exception:  # noqa
+            continue
+
+        def make(real, label):
+            def wrapper(*a, **k):
+                if ARMED[0]:
+                    EVENTS.append(('global-setter', label))
+                return real(*a, **k)
+            return wrapper
+        setattr(mod, attr, make(real, '%s.%s' % (modname, attr)))
+        saved.append((mod, attr, real))
+    return saved
+
+
 def run_filter(hs, g, text):
     """-> (outcome, events, flag, stdout-writes)"""
     import gc
@@ -209,6 +238,7 @@ def run_filter(hs, g, text):
     saved = sys.stdout
     sys.stdout = rec
     gc.disable()
+    wrapped = _wrap_setters()
     ARMED[0] = True
     try:
         try:
@@ -218,6 +248,8 @@ def run_filter(hs, g, text):
             out = ('raise', type(e).__name__, type(e).__module__)
     finally:
         ARMED[0] = False
+        for mod, attr, real in wrapped:
+            setattr(mod, attr, real)
         gc.enable()
         sys.stdout = saved
     return out, list(EVENTS), list(FLAG), rec.n
